@@ -84,6 +84,26 @@ type mutSpace struct {
 
 var mutSpaceCache *mutSpace
 
+// mutantsOf: all single edits for corpus/example programs and a subset of the generated ones; for the
+// other generated programs only the binder-collision edits, restricted to the generated function f.
+func mutantsOf(b baseProg) []gen.Mutation {
+	if !b.NoMutants || mutateGenerated(b) {
+		return gen.Mutants(b.P)
+	}
+	var out []gen.Mutation
+	fOnly := &ref.Program{Env: b.P.Env, Assumed: b.P.Assumed}
+	_ = fOnly
+	for _, m := range gen.BinderMutants(b.P) {
+		// keep the edits inside f: the harness functions are shared by all generated programs
+		for i := range m.P.Funcs {
+			if m.P.Funcs[i].Name == "f" && m.P.Funcs[i].Body.String() != b.P.Funcs[i].Body.String() {
+				out = append(out, m)
+			}
+		}
+	}
+	return out
+}
+
 func getMutSpace(c *harness.Ctx) *mutSpace {
 	if mutSpaceCache != nil {
 		return mutSpaceCache
@@ -91,10 +111,7 @@ func getMutSpace(c *harness.Ctx) *mutSpace {
 	mutateAllGenerated = c.Thorough()
 	ms := &mutSpace{bases: basePrograms(c)}
 	for _, b := range ms.bases {
-		n := 0
-		if !b.NoMutants || mutateGenerated(b) {
-			n = len(gen.Mutants(b.P))
-		}
+		n := len(mutantsOf(b))
 		ms.counts = append(ms.counts, n)
 		ms.starts = append(ms.starts, ms.total)
 		ms.total += 1 + (n+mutChunk-1)/mutChunk
@@ -112,7 +129,7 @@ func (ms *mutSpace) programsOfCase(idx int) (base baseProg, out []gen.Mutation) 
 			if k == 0 {
 				return base, []gen.Mutation{{Desc: "original", P: base.P}}
 			}
-			muts := gen.Mutants(base.P)
+			muts := mutantsOf(base)
 			lo := (k - 1) * mutChunk
 			hi := lo + mutChunk
 			if hi > len(muts) {
@@ -246,7 +263,7 @@ func init() {
 	// ---------------- C09 ----------------
 	harness.Register(&harness.Check{
 		ID: "C09", Level: "model_checking",
-		Rule:        progRule + ", plus every text among the enumerated token strings (<= 3 / <= 4 tokens) that the parser accepts and all 4096 alias/recursion/mode graphs over three type names with a forwarding function between two of them; for each, ALL schedules of Typecheck's two tasks (caller and worker goroutine) are executed under the controlled scheduler (S-full), and the remaining tasks are run to quiescence after Typecheck has returned; oracle: an answer (nil or a non-empty error) within fuel, no panic in any task before or after the return, nil implies no panic; states/transitions as for C01",
+		Rule:        progRule + ", plus every text among the enumerated token strings (<= 3 / <= 4 tokens) that the parser accepts and all 9261 alias/recursion/mode graphs over three type names with a forwarding function between two of them; for each, ALL schedules of Typecheck's two tasks (caller and worker goroutine) are executed under the controlled scheduler (S-full), and the remaining tasks are run to quiescence after Typecheck has returned; oracle: an answer (nil or a non-empty error) within fuel, no panic in any task before or after the return, nil implies no panic; states/transitions as for C01",
 		Assumptions: mcAssumptions[:2],
 		Cases:       func(c *harness.Ctx) int { return getMutSpace(c).total + c09GarbageCases(c) },
 		Run: func(c *harness.Ctx, idx int, r *harness.Rec) {
